@@ -3,6 +3,8 @@
    DISTRIB <a|f> <arg>*     hwloc-distrib -i <topology> <arg>*
    LRT <arg>*               --largest round trip: set(args) = set(output of --largest args)      -> same=1
    NI <level> <arg>*        -N <level> equals the number of entries of -I <level>                -> same=1
+   SL <stdin> <opt>*        stdin mode line by line: output line k of `-q <opt>*` fed <stdin> equals the output of
+                            `-q <opt>* <locations of line k>`                                      -> same=1 cmp=<n>
    LSTOPO / DIFFPATCH / BADARGS: the harness compares the tool with the library itself; the expected line is constant.
    Tokens are %XX-escaped byte strings (`%_` = empty string). -/
 import Hw.Io.Calc
@@ -49,6 +51,39 @@ def plainSet (d : Dump) (args : List (List Nat)) : Option (List Nat) :=
 
 def splitSpaces (o : List Nat) : List (List Nat) := tokensOf o
 
+/-- the lines of an output that ends with a newline (or is empty); `none` otherwise -/
+def outLines (o : List Nat) : Option (List (List Nat)) :=
+  if o.isEmpty then some [] else
+  if o.getLast? != some 10 then none else some (linesOf o)
+
+/-- the SL relation evaluated on the model (mirrors `op_sl` of harness/h_tools.c) -/
+def slAnswer (d : Dump) (opts : List (List Nat)) (sin : List Nat) : String :=
+  let lines := linesOf sin
+  if sin.any (· == 0) then "na" else
+  if lines.any (fun l => (tokensOf l).any (fun t => t.head? == some 45)) then "na" else
+  match calcMain d opts sin with
+  | .skip w => "skip:" ++ w
+  | .exit 0 none => "skip:stdout-unpredicted"
+  | .exit 0 (some o) =>
+    match outLines o with
+    | none => "na"
+    | some outs =>
+      if outs.length != lines.length then "na" else
+      let rec go : List (List Nat × List Nat) → Nat → String
+        | [], cmp => "same=1 cmp=" ++ toString cmp
+        | (l, o) :: r, cmp =>
+          let toks := tokensOf l
+          if toks.isEmpty then go r cmp else
+          match calcMain d (opts ++ toks) [] with
+          | .skip w => "skip:" ++ w
+          | .exit 0 none => "skip:stdout-unpredicted"
+          | .exit 0 (some ok) =>
+            if ok.isEmpty then go r cmp
+            else if ok == o ++ [10] then go r (cmp + 1) else "same=0"
+          | .exit _ _ => go r cmp
+      go (lines.zip outs) 0
+  | .exit _ _ => "na"
+
 def answer (d : Dump) (t : List String) : Option String :=
   match t with
   | "CALC" :: _ :: sin :: args => do
@@ -81,6 +116,10 @@ def answer (d : Dump) (t : List String) : Option String :=
     | .skip w, _ => pure ("skip:" ++ w)
     | _, .skip w => pure ("skip:" ++ w)
     | _, _ => pure "na"
+  | "SL" :: sin :: args => do
+    let sin ← unesc sin
+    let args ← args.mapM unesc
+    pure (slAnswer d (str "-q" :: args) sin)
   | ["LSTOPO", _, _, _, _, lib] => pure (if lib = "lib=ok" then "rc=0 same=1 reload=1" else "rc=nz")
   | ["DIFFPATCH", _, cx, _, _] => pure (if cx = "complex=0" then "diff=0 patch=0 equiv=1" else if cx = "complex=1" then "diff=nz" else "bad-op")
   | "BADARGS" :: _ => pure "rc=nz"
